@@ -18,6 +18,7 @@ func init() {
 			"Not decided: whether the server's markers are themselves well-formed.",
 		Assumptions: []string{"gocbcore delivers the snapshot marker of a snapshot before its items on the same goroutine"},
 		Rules: []RuleDef{
+			{ID: "C06.R19", Text: "an event is tested against the snapshot announced on its own stream: every observer put into the observer map is the result of the observer constructor called there — no observer is carried over a Close with the snapshot, branch id or catch-up state of the earlier stream", Run: observersFreshPerOpen},
 			{ID: "C06.R1", Text: "delivery is dominated by IsInSnapshotMarker(x)=true for the x that becomes Offset.SeqNo; SnapshotMarker ← observer.currentSnapshot, VbUUID ← observer.vbUUID; SeqNoAdvanced builds [s,s] and SeqNo s from one value", Run: c06r1},
 			{ID: "C06.R2", Text: "IsInSnapshotMarker: true ⇔ snapshot≠nil ∧ Start ≤ seq ≤ End; panic otherwise; never returns false", Run: c06r2},
 			{ID: "C06.R3", Text: "replace, never mutate: no in-place store to SnapshotMarker/Offset fields; every store to observer.currentSnapshot assigns a freshly allocated literal built from the event", Run: c06r3},
